@@ -371,6 +371,24 @@ impl<'tcx> Dumper<'tcx> {
         if let Some(tr) = tcx.trait_of_assoc(def) {
             f.push(("trait", jstr(self.path(tr))));
         }
+        if let DefKind::Ctor(of, _) = tcx.def_kind(def) {
+            // tuple-struct / variant constructor used as a function
+            let parent = tcx.parent(def);
+            let (adt_did, variant) = match of {
+                rustc_hir::def::CtorOf::Struct => (parent, 0u32),
+                rustc_hir::def::CtorOf::Variant => {
+                    let adt_did = tcx.parent(parent);
+                    let adt = tcx.adt_def(adt_did);
+                    (adt_did, adt.variant_index_with_id(parent).as_u32())
+                }
+            };
+            let is_enum = tcx.adt_def(adt_did).is_enum();
+            f.push(("ctor", jobj(vec![
+                ("adt", jstr(self.path(adt_did))),
+                ("variant", jint(variant as i128)),
+                ("enum", J::Bool(is_enum)),
+            ])));
+        }
         if let Some(intr) = tcx.intrinsic(def) {
             f.push(("intrinsic", jstr(intr.name.to_string())));
         }
